@@ -184,7 +184,7 @@ def rule_root(ck, facts, pm):
 
 def rule_trivia(ck, facts):
     R = "C13.trivia"
-    ck.rule(R, "pre-parser: the pending-trivia vector only loses elements by append/extend into a trivia map; clear/truncate/pop/drain = loss site")
+    ck.rule(R, "pre-parser: the pending-trivia vector only loses elements by append/extend into a trivia map; clear/truncate/pop/drain = loss site; storing it with a map `insert` overwrites the trivia the token already has")
     lang = facts.crate(roles.LANG)
     cands = [f for f in lang.fns if "::parser::preparser::" in f.path and f.kind == "fn"]
     target = None
@@ -247,6 +247,8 @@ def rule_trivia(ck, facts):
             ck.bad(R, "loss|%s|%s" % (f.short, short), "pre-parser: pending trivia is discarded by `%s` — comment/whitespace tokens collected so far are attached to no token" % short, f.where(t))
         if short in ("append", "extend") and len(t[5]) >= 2 and base_local(t[5][1]) == pl:
             sinks += 1
+        if short == "insert" and ("HashMap" in c or "BTreeMap" in c) and any(base_local(a) == pl for a in t[5][1:]):
+            ck.bad(R, "overwrite|%s|insert" % f.short, "pre-parser: the pending trivia is stored with `insert`, which replaces whatever trivia that token already had in the map (a token that received trailing trivia at an earlier line break loses it); the other sinks extend the entry" , f.where(t))
     ck.floor(R, "trivia_sinks", sinks, 3)
     ck.ok(R, "sinks|%s" % f.short, {"pending_local": pl, "append/extend sinks": sinks})
 
